@@ -40,7 +40,7 @@ var malformedLines = []string{
 type c15Stream struct {
 	Kind      string // malformed | interleave | write-fail | bad-login | bad-pid | clean
 	Lines     []string
-	Groups    map[int64]auGroup // by timestamp, groups expected to be emitted
+	Groups    map[string]auGroup // by marker, groups expected to be emitted
 	FaultPos  int               // line index of the malformed line / login position
 	FaultLine string
 	FailAt    int // recorder fails at this Encode (1-based)
@@ -74,9 +74,50 @@ func interleave(groups [][]string, r *vlib.Rng) []string {
 	}
 }
 
+// genMarkedGroup renders kernel event number k with a unique marker that
+// survives into the UserAction: the first argument of an execve event, or the
+// peer address of a PAM record (it becomes the summary object's secondary).
+func genMarkedGroup(r *vlib.Rng, k int, tsms int64, seq uint32, pid int, ses string) (auGroup, string) {
+	g := auGroup{TSms: tsms}
+	if r.Chance(45) {
+		marker := fmt.Sprintf("10.77.%d.%d", k/250, k%250)
+		g.Kind = vlib.PickOne(r, []string{"USER_START", "USER_END", "CRED_ACQ", "CRED_REFR", "USER_ACCT"})
+		l := vlib.AuUser(g.Kind, tsms, seq, pid, ses, "PAM:thing", "success")
+		l = strings.Replace(l, "hostname=127.0.0.1 addr=127.0.0.1", "hostname="+marker+" addr="+marker, 1)
+		g.Lines = []string{l}
+		g.Success = true
+		return g, marker
+	}
+	marker := fmt.Sprintf("marker-%d", k)
+	e := vlib.ExecSpec{TSms: tsms, Seq: seq, PID: pid + 1, Ses: ses, Success: vlib.PickOne(r, []string{"yes", "no"}),
+		Exe: "/usr/bin/env", Cwd: "/home/someuser", EOE: r.Chance(20), Args: []string{marker}}
+	for a := r.Intn(4); a > 0; a-- {
+		e.Args = append(e.Args, vlib.PickOne(r, []string{"-l", "a b", "/etc/passwd"}))
+	}
+	for p := r.Intn(3); p > 0; p-- {
+		e.Paths = append(e.Paths, vlib.PickOne(r, []string{"/usr/bin/env", "/lib64/ld-linux-x86-64.so.2"}))
+	}
+	g.Kind = "SYSCALL"
+	g.HasArgs = true
+	g.NArgs = len(e.Args)
+	g.Lines = e.Lines()
+	return g, marker
+}
+
+// markerOf extracts the marker from an emitted UserAction.
+func markerOf(ev *auditevent.AuditEvent) string {
+	if args, ok := ev.Metadata.Extra["process_args"].([]any); ok && len(args) > 0 {
+		return fmt.Sprint(args[0])
+	}
+	if obj, ok := ev.Metadata.Extra["object"].(map[string]any); ok {
+		return fmt.Sprint(obj["secondary"])
+	}
+	return ""
+}
+
 func c15Gen(seed int64, i int) c15Stream {
 	r := vlib.NewRng(seed, "C15/"+strconv.Itoa(i))
-	s := c15Stream{Groups: map[int64]auGroup{}, FaultPos: -1, LoginAfter: -1, Pid: 20000 + i%10000, Ses: strconv.Itoa(2000 + i%5000)}
+	s := c15Stream{Groups: map[string]auGroup{}, FaultPos: -1, LoginAfter: -1, Pid: 20000 + i%10000, Ses: strconv.Itoa(2000 + i%5000)}
 	kinds := []string{"malformed", "interleave", "write-fail", "bad-login", "bad-pid", "clean"}
 	s.Kind = kinds[i%len(kinds)]
 	n := 3 + r.Intn(12)
@@ -94,8 +135,10 @@ func c15Gen(seed int64, i int) c15Stream {
 	}
 	for k := 1; k <= n; k++ {
 		seq++
-		g := genGroup(r, vlib.BaseTSms+int64(k), seq, s.Pid, s.Ses, false)
-		s.Groups[g.TSms] = g
+		// two consecutive kernel events share one millisecond timestamp (as they do
+		// all the time in real logs); each carries a unique marker instead
+		g, marker := genMarkedGroup(r, k, vlib.BaseTSms+int64((k+1)/2), seq, s.Pid, s.Ses)
+		s.Groups[marker] = g
 		if s.Kind == "interleave" && len(g.Lines) > 1 {
 			pending = append(pending, g.Lines)
 			if len(pending) == 2+r.Intn(2) {
@@ -303,10 +346,11 @@ func c15Run(i int, s c15Stream, out *childOut) {
 	for rec.Len() < len(s.Groups)+1 && time.Now().Before(deadline) {
 		time.Sleep(100 * time.Microsecond)
 	}
-	seen := map[int64]int{}
+	seen := map[string]int{}
 	for _, c := range rec.Calls() {
-		seen[c.Ev.LoggedAt.UnixMilli()]++
-		g, ok := s.Groups[c.Ev.LoggedAt.UnixMilli()]
+		m := markerOf(&c.Ev)
+		seen[m]++
+		g, ok := s.Groups[m]
 		if !ok {
 			continue
 		}
@@ -315,14 +359,14 @@ func c15Run(i int, s c15Stream, out *childOut) {
 		}
 	}
 	out.class(fmt.Sprintf("%s|groups=%d", s.Kind, len(s.Groups)))
-	for ts, g := range s.Groups {
-		switch seen[ts] {
+	for mk, g := range s.Groups {
+		switch seen[mk] {
 		case 1:
 			out.add("events_reaching_correlator", 1)
 		case 0:
 			out.violation(sig+":event-lost", fmt.Sprintf("record group %q... never reached the correlator", trunc(g.Lines[0], 90)), wit)
 		default:
-			out.violation(sig+":event-split-or-duplicated", fmt.Sprintf("record group %q... produced %d events", trunc(g.Lines[0], 90), seen[ts]), wit)
+			out.violation(sig+":event-split-or-duplicated", fmt.Sprintf("record group %q... produced %d events", trunc(g.Lines[0], 90), seen[mk]), wit)
 		}
 	}
 	if s.Kind == "interleave" {
